@@ -2,7 +2,9 @@
 From Coq Require Import ZArith QArith List String Bool.
 Import ListNotations.
 From FV.C11 Require Import Model Check.
-From FV.C18 Require Import Model.
+From FV.C11.gen Require Import Kernels.
+From FV.C18 Require Import Model SlotBase SlotModel.
+From FV.C18.gen Require Import Tables Slots.
 
 Fixpoint list_eqb {A} (eqb : A -> A -> bool) (a b : list A) : bool :=
   match a, b with
@@ -52,3 +54,34 @@ Fixpoint blocks_eqb (a b : list (string * list (Z * list Z))) : bool :=
   end.
 Definition others_ok (src impl : list (string * list (Z * list Z))) : bool :=
   blocks_eqb (resolve_degeneracy_others src) impl.
+
+(* ---- histories on one object (SlotModel): the signed volume of a tet row is the
+   translated tet kernel on the coordinates of its nodes, looked up by id *)
+Definition q_sv (nids : list Z) (coords : list (v3 Q)) (c : list Z) : Q :=
+  match mapMo (fun x => match index_of x nids with
+                        | Some k => nth_error coords k
+                        | None => None
+                        end) c with
+  | Some [p0; p1; p2; p3] => k_element_volumes_tet_like QOps p0 p1 p2 p3
+  | _ => 0
+  end.
+(* what the implementation did at one step *)
+Inductive iresult := IValues (l : list Q) | IRaised | IDone (rs : list (Z * list Z)).
+Fixpoint vals_close (erel : Q) (m i : list Q) : bool :=
+  match m, i with
+  | [], [] => true
+  | a :: m', b :: i' => close 0 erel a b && vals_close erel m' i'
+  | _, _ => false
+  end.
+Fixpoint history_ok (erel : Q) (sv : list Z -> Q) (o : @obj Q) (h : list (op * iresult)) : bool :=
+  match h with
+  | [] => true
+  | (a, i) :: h' =>
+      let '(r, o1) := step QOps sv o a in
+      match r, i with
+      | Values l, IValues l' => vals_close erel l l'
+      | Raised, IRaised => true
+      | Done, IDone rs => rows_eqb (rows o1) rs
+      | _, _ => false
+      end && history_ok erel sv o1 h'
+  end.
